@@ -163,6 +163,10 @@ def run(ctx):
   # "in the sharded variant the same holds": the per-parameter view of the sharded state is complete in both directions
   from . import C07
   C07.sharded_record_conversion(ctx)
+  # "roots of the ridge-regularised statistics": each statistic meets ITS padding start (the ridge is relative to the
+  # largest eigenvalue of the unpadded block), exponent and previous root in all three modes
+  from . import C13
+  C13.parallel_lists(ctx)
 
 
 def initial_values(ctx):
@@ -389,6 +393,20 @@ def statistics(ctx):
   # per-block / per-axis loop of updated_statistics_from_grad
   fu = m.func(MOD, 'Preconditioner.updated_statistics_from_grad')
   ctx.analysed(fu)
+  # which update a (block, axis) pair gets is decided by that pair alone: the function applied inside the loop must not be a
+  # value carried over from an earlier iteration (a sketch update chosen for one block would stick to the blocks after it)
+  for fd in (True, False):
+    dd = Decider(truth={'frequent_directions': fd}, cmps={('to_float', 'is not', None): True, ('from_float', 'is not', None): True})
+    evf = evaluator(m, decide=dd, opaque={'gram_weighted_update', 'frequent_directions_update', 'should_precondition_dims', 'partition', '_should_compress'})
+    rf_ = evf.run(fu)
+    applied = list(dict.fromkeys(x for x in walk(rf_) if x.op == 'call' and
+                                 (any(fn_name(y) in ('gram_weighted_update', 'frequent_directions_update') or
+                                      (y.op in ('closure', 'partial', 'fn') and ('gram_weighted_update' in show(y, maxdepth=3) or 'frequent_directions_update' in show(y, maxdepth=3)))
+                                      for y in walk(x.args[0])) or any(y.op == 'phi' and y.args[1] == 'update' for y in walk(x.args[0])))))
+    carried = [x for x in applied if any(y.op == 'phi' for y in walk(x.args[0]))]
+    ctx.ob('C02.R4', fu.short, f'the statistics update of a (block, axis) pair is chosen by that pair [frequent_directions={int(fd)}]', not carried,
+           f'the function applied to a block\'s statistic is a value carried over from the previous loop iteration: `{show(carried[0].args[0], maxdepth=4)[:200] if carried else ""}`',
+           ctx.loc(fu), sample='update chosen inside the (block, axis) loop')
   d = Decider(truth={'frequent_directions': False}, cmps={('to_float', 'is not', None): True, ('from_float', 'is not', None): True})
   ev = evaluator(m, decide=d, opaque={'gram_weighted_update', 'frequent_directions_update', 'should_precondition_dims', 'partition'})
   r = ev.run(fu)
